@@ -397,7 +397,7 @@ Section Core.
     match c_kind ci with
     | KPlain => Obj c (h_attrs ci a) (h_kids ci slots) (h_ext slots) (h_xattrs ci a) (text_opt x)
     | KAttrValue =>
-        match av_finish (h_ext slots) (h_xattrs ci a) x with
+        match av_finish (dmem qname_eqb xsi_nil a) (h_ext slots) (h_xattrs ci a) x with
         | AvOk xa tx => Obj c (h_attrs ci a) (h_kids ci slots) (h_ext slots) xa tx
         | _ => Obj c (h_attrs ci a) (h_kids ci slots) (h_ext slots) (h_xattrs ci a) (Some "")
         end
@@ -420,7 +420,7 @@ Section Core.
   Lemma o_cls_harvest c t : o_cls (harvest T c t) = c.
   Proof.
     destruct t as [g a x kids]. cbn [harvest]. destruct (class_at T c) as [ci|]; [|reflexivity].
-    unfold assemble. destruct (c_kind ci); [reflexivity|]. destruct (av_finish _ _ _); reflexivity.
+    unfold assemble. destruct (c_kind ci); [reflexivity|]. destruct (av_finish _ _ _ _); reflexivity.
   Qed.
 End Core.
 
@@ -710,6 +710,20 @@ Proof.
 Qed.
 
 (* ------------------------------------------------------------------ round trip *)
+Lemma dget_q_app_notin (k : qname) (l1 l2 : attrs) : ~ In k (map fst l1) -> dget qname_eqb k (l1 ++ l2) = dget qname_eqb k l2.
+Proof.
+  induction l1 as [|[k' v'] r IH]; cbn [app map fst In dget]; [reflexivity|]. intros H.
+  destruct (qname_eqb k k') eqn:E; [apply qname_eqb_eq in E; exfalso; apply H; auto|apply IH; tauto].
+Qed.
+
+Lemma dget_q_wire_attrs (k : qname) (l : attrs) : is_xmlns_name k = false -> dget qname_eqb k (wire_attrs l) = dget qname_eqb k l.
+Proof.
+  intros X. unfold wire_attrs. induction l as [|[k' v'] r IH]; cbn [filter fst dget]; [reflexivity|].
+  destruct (qname_eqb k k') eqn:E.
+  - apply qname_eqb_eq in E. subst k'. rewrite X. cbn [negb dget]. rewrite qname_eqb_refl. reflexivity.
+  - destruct (negb (is_xmlns_name k')); cbn [dget]; rewrite ?E; exact IH.
+Qed.
+
 Section Roundtrip.
   Variable T : table.
 
@@ -860,6 +874,13 @@ Section Roundtrip.
     assert (Exattrs : h_xattrs ci (known ++ wire_attrs xa) = dset_all qname_eqb (init_xattrs ci) (wire_attrs xa)).
     { unfold h_xattrs. rewrite fold_left_app, (fold_stepx_known ci known) by exact Hkn.
       apply fold_stepx_unknown. exact Hxa'. }
+    assert (Enil : c_kind ci = KAttrValue ->
+                   dmem qname_eqb xsi_nil (known ++ wire_attrs xa) = dmem qname_eqb xsi_nil xa).
+    { intros Kd. unfold dmem. rewrite dget_q_app_notin, dget_q_wire_attrs; [reflexivity|reflexivity|].
+      intros Hn. apply in_map_iff in Hn as [kv [Ekv Hkv]]. specialize (Hkn kv Hkv). rewrite Ekv in Hkn.
+      destruct (find_attr ci xsi_nil) as [a0|] eqn:Fa; [|apply Hkn; reflexivity].
+      destruct (find_some_key qname_eqb at_name (c_attributes ci) xsi_nil a0 qname_eqb_eq Fa) as [Ia En].
+      destruct (wf_av _ _ F Kd a0 Ia) as [_ Y]. apply Y. exact En. }
     split.
     - rewrite (harvest_eq T c _ _ _ _ ci Eci), Eslots, assemble_eq, Ekids, Eext, Eattrs, Exattrs.
       unfold init_xattrs. destruct (c_kind ci) eqn:Ekind.
@@ -867,8 +888,8 @@ Section Roundtrip.
         rewrite (wire_attrs_id xa) by exact C8a.
         rewrite (dset_all_nil_fresh qname_eqb qname_eqb_eq) by exact C6.
         rewrite norm_eol_id by exact Nx. rewrite text_opt_str by exact C8b. reflexivity.
-      + unfold av_fix_b in C8.
-        destruct (av_finish ext (dset_all qname_eqb av_init_xattrs (wire_attrs xa)) (norm_eol (text_str tx)))
+      + unfold av_fix_b in C8. rewrite (Enil eq_refl).
+        destruct (av_finish (dmem qname_eqb xsi_nil xa) ext (dset_all qname_eqb av_init_xattrs (wire_attrs xa)) (norm_eol (text_str tx)))
           as [xa' tx'| |]; try discriminate.
         apply andb_true_iff in C8 as [A B]. apply attrs_eqb_eq in A. apply opt_string_eqb_eq in B. subst xa' tx'. reflexivity.
     - cbn [harvest_status]. rewrite Eci.
@@ -876,11 +897,12 @@ Section Roundtrip.
       assert (Eown : match c_kind ci with
                      | KPlain => SOk
                      | KAttrValue =>
-                         match av_finish ext (dset_all qname_eqb (init_xattrs ci) (wire_attrs xa)) (norm_eol (text_str tx)) with
+                         match av_finish (dmem qname_eqb xsi_nil (known ++ wire_attrs xa)) ext
+                                         (dset_all qname_eqb (init_xattrs ci) (wire_attrs xa)) (norm_eol (text_str tx)) with
                          | AvOk _ _ => SOk | AvRaise => SRaise | AvUnmodelled => SUnmodelled end
                      end = SOk).
-      { unfold init_xattrs. destruct (c_kind ci); [reflexivity|]. unfold av_fix_b in C8.
-        destruct (av_finish ext (dset_all qname_eqb av_init_xattrs (wire_attrs xa)) (norm_eol (text_str tx))); try discriminate.
+      { unfold init_xattrs. destruct (c_kind ci) eqn:Ekind; [reflexivity|]. unfold av_fix_b in C8. rewrite (Enil eq_refl).
+        destruct (av_finish (dmem qname_eqb xsi_nil xa) ext (dset_all qname_eqb av_init_xattrs (wire_attrs xa)) (norm_eol (text_str tx))); try discriminate.
         reflexivity. }
       rewrite Eown. apply fold_right_join_ok. exact Estat.
   Qed.
@@ -947,17 +969,23 @@ Section Kept.
       unfold known_attr in U. destruct (find_attr ci n); [discriminate|reflexivity]. }
     destruct (c_kind ci) eqn:K.
     - cbn [o_ext o_xattrs]. split; [apply h_ext_classify|]. intros n v I U _ _ _. apply X; assumption.
-    - assert (Eext : forall xa tx, o_ext (match av_finish (h_ext (map (classify T ci) kids)) (h_xattrs ci a) x with
+    - assert (Eext : forall xa tx, o_ext (match av_finish (dmem qname_eqb xsi_nil a) (h_ext (map (classify T ci) kids)) (h_xattrs ci a) x with
                              | AvOk xa' tx' => Obj c (h_attrs ci a) (h_kids ci (map (classify T ci) kids)) (h_ext (map (classify T ci) kids)) xa' tx'
                              | _ => Obj c (h_attrs ci a) (h_kids ci (map (classify T ci) kids)) (h_ext (map (classify T ci) kids)) xa tx
                              end) = h_ext (map (classify T ci) kids)).
-      { intros xa tx. destruct (av_finish _ _ _); reflexivity. }
+      { intros xa tx. destruct (av_finish _ _ _ _); reflexivity. }
       split; [rewrite Eext; apply h_ext_classify|].
       intros n v I U M NX St. unfold av_managed in M. rewrite K in M. apply orb_false_iff in M as [M1 M2].
       apply qname_eqb_neq in M1, M2.
       cbn [harvest_status] in St. rewrite E, K in St. rewrite (ext_of_eq T), xattrs_of_eq in St.
       specialize (X n v I U).
-      unfold av_finish in *.
+      assert (NX1 : n <> xmlns_xs) by (intros ->; discriminate NX).
+      assert (NX2 : n <> xmlns_xsd) by (intros ->; discriminate NX).
+      unfold av_finish in *. destruct (av_retyped _ _ _ _).
+      { cbn [o_xattrs]. unfold av_set_type.
+        repeat match goal with |- context [if ?b then _ else _] => destruct b end;
+          rewrite ?dget_q_dset_other by assumption; rewrite dget_ddel_other by exact M1; exact X. }
+      unfold av_finish_f5v0 in *.
       set (x1 := if negb (is_empty x) && nonempty (h_ext (map (classify T ci) kids)) then strip x else x) in *.
       destruct (is_empty x1).
       + cbn [o_xattrs]. destruct (nonempty (h_ext (map (classify T ci) kids))); [rewrite dget_ddel_other by exact M1|]; exact X.
@@ -966,8 +994,6 @@ Section Kept.
           destruct s, (fold_right st_join SRaise r); cbn in St; try discriminate; auto. }
         destruct (av_convert ty x1) as [x2| |].
         * cbn [o_xattrs]. rewrite dget_ddel_other by exact M1. unfold av_set_type.
-          assert (NX1 : n <> xmlns_xs) by (intros ->; discriminate NX).
-          assert (NX2 : n <> xmlns_xsd) by (intros ->; discriminate NX).
           repeat match goal with |- context [if ?b then _ else _] => destruct b end;
             rewrite ?dget_q_dset_other by assumption; rewrite dget_ddel_other by exact M1; exact X.
         * exfalso. clear -St. induction (map _ kids) as [|s r IH]; cbn [fold_right] in St; [discriminate|].
@@ -1358,26 +1384,26 @@ Definition eff_type (xa : attrs) : string :=
   match dget qname_eqb xsi_type xa with Some s => if is_empty s then "string" else s | None => "string" end.
 
 Lemma av_finish_empty ext xa x : is_empty (av_x1 ext x) = true ->
-  av_finish ext xa x = AvOk (if nonempty ext then ddel qname_eqb xsi_nil xa else xa) (Some "").
-Proof. intros H. unfold av_finish. fold (av_x1 ext x). rewrite H. reflexivity. Qed.
+  av_finish_f5v0 ext xa x = AvOk (if nonempty ext then ddel qname_eqb xsi_nil xa else xa) (Some "").
+Proof. intros H. unfold av_finish_f5v0. fold (av_x1 ext x). rewrite H. reflexivity. Qed.
 
 Lemma av_finish_bad_type ext xa x : is_empty (av_x1 ext x) = false -> type_ok (eff_type xa) = false ->
-  av_finish ext xa x = AvRaise.
+  av_finish_f5v0 ext xa x = AvRaise.
 Proof.
-  intros H S. unfold av_finish. fold (av_x1 ext x). rewrite H. fold (eff_type xa). rewrite S.
+  intros H S. unfold av_finish_f5v0. fold (av_x1 ext x). rewrite H. fold (eff_type xa). rewrite S.
   destruct (split_type (eff_type xa)). reflexivity.
 Qed.
 
 Lemma av_finish_text ext xa x ns ty : is_empty (av_x1 ext x) = false -> split_type (eff_type xa) = (ns, ty) ->
   type_ok (eff_type xa) = true ->
-  av_finish ext xa x =
+  av_finish_f5v0 ext xa x =
   match av_convert ty (av_x1 ext x) with
   | CRaise => AvRaise
   | CUnmodelled => AvUnmodelled
   | CText x2 => AvOk (ddel qname_eqb xsi_nil (av_set_type (mk_typ ns ty) xa)) (Some x2)
   end.
 Proof.
-  intros H S O. unfold av_finish. fold (av_x1 ext x). rewrite H. fold (eff_type xa). rewrite S, O. reflexivity.
+  intros H S O. unfold av_finish_f5v0. fold (av_x1 ext x). rewrite H. fold (eff_type xa). rewrite S, O. reflexivity.
 Qed.
 
 (* ---- dict facts used below *)
@@ -1471,14 +1497,15 @@ Proof.
   intros H. apply andb_true_iff in H as [H1 H2]. destruct (qname_eqb k k'); cbn [forallb fst]; rewrite H1; [exact H2|apply IH; exact H2].
 Qed.
 
-Lemma av_idem ext xa0 x xa1 tx1 :
+Lemma av_idem_f5v0 ext xa0 x xa1 tx1 :
   NoDup (map fst xa0) ->
   forallb (fun kv => negb (is_xmlns_name (fst kv))) xa0 = true ->
   has_cr x = false ->
-  av_finish ext (av_B xa0) x = AvOk xa1 tx1 ->
-  av_fix_b ext xa1 tx1 = true /\ NoDup (map fst xa1) /\ has_cr (text_str tx1) = false /\
+  av_finish_f5v0 ext (av_B xa0) x = AvOk xa1 tx1 ->
+  av_fix_f5v0_b ext xa1 tx1 = true /\ NoDup (map fst xa1) /\ has_cr (text_str tx1) = false /\
   (forall k, In k (map fst xa1) ->
-     In k (map fst xa0) \/ k = xsi_nil \/ k = xsi_type \/ k = xmlns_xs \/ k = xmlns_xsd).
+     In k (map fst xa0) \/ k = xsi_nil \/ k = xsi_type \/ k = xmlns_xs \/ k = xmlns_xsd) /\
+  (nonempty ext = true \/ is_empty (text_str tx1) = false \/ In xsi_nil (map fst xa1)).
 Proof.
   intros N X C.
   set (R := ddel qname_eqb xsi_nil xa0).
@@ -1498,17 +1525,18 @@ Proof.
     assert (Ex : av_x1 ext (norm_eol (text_str (Some ""))) = "") by reflexivity.
     cbn [ddel]; rewrite ?qname_eqb_refl. destruct (nonempty ext) eqn:NE.
     + split.
-      * unfold av_fix_b. rewrite (wire_attrs_id R XR). fold (av_B R). rewrite (av_B_clean R NR NilR).
+      * unfold av_fix_f5v0_b. rewrite (wire_attrs_id R XR). fold (av_B R). rewrite (av_B_clean R NR NilR).
         rewrite av_finish_empty by (rewrite Ex; reflexivity). rewrite NE. cbn [ddel]; rewrite ?qname_eqb_refl.
         rewrite (proj2 (attrs_eqb_eq R R) eq_refl). reflexivity.
-      * split; [exact NR|]. split; [reflexivity|]. intros k Hk. left. apply KR. exact Hk.
+      * split; [exact NR|]. split; [reflexivity|]. split; [intros k Hk; left; apply KR; exact Hk|left; reflexivity].
     + split.
-      * unfold av_fix_b. rewrite (wire_attrs_id _ XB). fold (av_B ((xsi_nil, vn) :: R)).
+      * unfold av_fix_f5v0_b. rewrite (wire_attrs_id _ XB). fold (av_B ((xsi_nil, vn) :: R)).
         rewrite (av_B_shape _ NB). cbn [last_nil ddel]; rewrite ?qname_eqb_refl.
         rewrite (last_nil_absent R vn NilR).
         rewrite av_finish_empty by (rewrite Ex; reflexivity). rewrite NE.
         rewrite (proj2 (attrs_eqb_eq _ _) eq_refl). reflexivity.
-      * split; [exact NB|]. split; [reflexivity|]. intros k [<-|Hk]; [auto|left; apply KR; exact Hk].
+      * split; [exact NB|]. split; [reflexivity|]. split; [intros k [<-|Hk]; [auto|left; apply KR; exact Hk]|].
+        right. right. left. reflexivity.
   - destruct (type_ok (eff_type xa0)) eqn:OK;
       [|rewrite (av_finish_bad_type _ _ _ E1) by (rewrite ET; exact OK); discriminate].
     destruct (split_type (eff_type xa0)) as [ns ty] eqn:S.
@@ -1530,8 +1558,8 @@ Proof.
     assert (NilR3 : ~ In xsi_nil (map fst (addx typ' R1))).
     { intros Hk. apply keys_addx in Hk as [Hk|[Hk|Hk]]; [discriminate Hk|discriminate Hk|exact (NilR1 Hk)]. }
     rewrite (ddel_absent qname_eqb qname_eqb_eq) by exact NilR3.
-    split; [|split; [apply NoDup_addx; exact NR1|split; [exact V2|]]].
-    + unfold av_fix_b. rewrite wire_attrs_addx, (wire_attrs_id R1 XR1). fold (av_B R1). rewrite (av_B_clean R1 NR1 NilR1).
+    split; [|split; [apply NoDup_addx; exact NR1|split; [exact V2|split; [|right; left; exact V3]]]].
+    + unfold av_fix_f5v0_b. rewrite wire_attrs_addx, (wire_attrs_id R1 XR1). fold (av_B R1). rewrite (av_B_clean R1 NR1 NilR1).
       cbn [text_str]. rewrite (norm_eol_id x2 V2).
       assert (Ex2 : av_x1 ext x2 = x2).
       { unfold av_x1. destruct (negb (is_empty x2) && nonempty ext) eqn:Q; [|reflexivity].
@@ -1546,6 +1574,74 @@ Proof.
       rewrite (proj2 (attrs_eqb_eq _ _) eq_refl). cbn [opt_eqb]. rewrite String.eqb_refl. reflexivity.
     + intros k Hk. apply keys_addx in Hk as [Hk|[Hk|Hk]]; auto 6.
       apply keys_q_dset in Hk as [Hk|Hk]; auto 6.
+Qed.
+
+(* ---- the parsing side as it is now (fix c1c601fb): av_finish = the retyping of an empty, typed, not-nil element,
+   else the old function *)
+Lemma dset_same_value k v (d : attrs) : dget qname_eqb k d = Some v -> dset qname_eqb k v d = d.
+Proof.
+  induction d as [|[k' v'] r IH]; cbn [dget dset]; [discriminate|].
+  destruct (qname_eqb k k') eqn:E.
+  - intros H. inversion H; subst. apply qname_eqb_eq in E. subst. reflexivity.
+  - intros H. rewrite IH by exact H. reflexivity.
+Qed.
+
+Lemma dmem_q_In k (d : attrs) : dmem qname_eqb k d = true <-> In k (map fst d).
+Proof.
+  unfold dmem. pose proof (dget_None qname_eqb qname_eqb_eq k d) as H. unfold keys in H.
+  destruct (dget qname_eqb k d) as [v|] eqn:G.
+  - split; [intros _|reflexivity]. apply (dget_In qname_eqb qname_eqb_eq) in G. apply (in_map fst) in G. exact G.
+  - split; [discriminate|]. intros I. exfalso. apply (proj1 H eq_refl). exact I.
+Qed.
+
+Lemma av_fix_of_f5v0 ext xa tx :
+  av_fix_f5v0_b ext xa tx = true ->
+  (nonempty ext = true \/ is_empty (text_str tx) = false \/ In xsi_nil (map fst xa)) ->
+  has_cr (text_str tx) = false ->
+  av_fix_b ext xa tx = true.
+Proof.
+  intros F D C. unfold av_fix_b, av_finish.
+  replace (av_retyped _ _ _ _) with false; [exact F|]. symmetry. unfold av_retyped.
+  rewrite (norm_eol_id _ C). destruct (nonempty ext) eqn:NE; [rewrite andb_false_r; reflexivity|].
+  rewrite andb_false_r. destruct D as [D|[D|D]]; [discriminate| |].
+  - rewrite D. reflexivity.
+  - apply dmem_q_In in D. rewrite D. rewrite andb_false_r. reflexivity.
+Qed.
+
+Lemma av_idem ext xa0 x xa1 tx1 :
+  NoDup (map fst xa0) ->
+  forallb (fun kv => negb (is_xmlns_name (fst kv))) xa0 = true ->
+  has_cr x = false ->
+  av_finish (dmem qname_eqb xsi_nil xa0) ext (av_B xa0) x = AvOk xa1 tx1 ->
+  av_fix_b ext xa1 tx1 = true /\ NoDup (map fst xa1) /\ has_cr (text_str tx1) = false /\
+  (forall k, In k (map fst xa1) ->
+     In k (map fst xa0) \/ k = xsi_nil \/ k = xsi_type \/ k = xmlns_xs \/ k = xmlns_xsd).
+Proof.
+  intros N X C. unfold av_finish. destruct (av_retyped _ _ _ _) eqn:R.
+  - unfold av_retyped in R. apply andb_true_iff in R as [R Rt]. apply andb_true_iff in R as [R Rn].
+    apply andb_true_iff in R as [_ Re]. apply negb_true_iff in Rt, Rn, Re.
+    destruct ext as [|e0 er]; [clear Re|discriminate Re].
+    assert (NilA : ~ In xsi_nil (map fst xa0)).
+    { intros I. apply dmem_q_In in I. rewrite I in Rn. discriminate. }
+    rewrite (av_B_clean xa0 N NilA) in *.
+    set (t := av_get_type ((xsi_nil, "true") :: xa0)) in *.
+    assert (Et : dget qname_eqb xsi_type xa0 = Some t).
+    { subst t. unfold av_get_type in *. cbn [dget] in *. replace (qname_eqb xsi_type xsi_nil) with false in * by reflexivity.
+      destruct (dget qname_eqb xsi_type xa0) as [s0|]; [reflexivity|discriminate Rt]. }
+    intros H. inversion H; subst xa1 tx1. clear H.
+    rewrite av_set_type_cons, (dset_same_value _ _ _ Et).
+    assert (NilX : ~ In xsi_nil (map fst (addx t xa0))).
+    { intros Hk. apply keys_addx in Hk as [Hk|[Hk|Hk]]; [discriminate Hk|discriminate Hk|exact (NilA Hk)]. }
+    split; [|split; [apply NoDup_addx; exact N|split; [reflexivity|]]].
+    + unfold av_fix_b. replace (dmem qname_eqb xsi_nil (addx t xa0)) with false
+        by (symmetry; destruct (dmem qname_eqb xsi_nil (addx t xa0)) eqn:D; [apply dmem_q_In in D; contradiction|reflexivity]).
+      rewrite wire_attrs_addx, (wire_attrs_id xa0 X). fold (av_B xa0). rewrite (av_B_clean xa0 N NilA).
+      cbn [text_str norm_eol]. unfold av_finish, av_retyped. cbn [is_empty negb andb nonempty]. fold t. rewrite Rt. cbn [negb].
+      rewrite av_set_type_cons, (dset_same_value _ _ _ Et).
+      rewrite (proj2 (attrs_eqb_eq _ _) eq_refl). reflexivity.
+    + intros k Hk. apply keys_addx in Hk as [Hk|[Hk|Hk]]; auto 6.
+  - intros H. destruct (av_idem_f5v0 ext xa0 x xa1 tx1 N X C H) as [F [N1 [C1 [K1 D1]]]].
+    split; [apply av_fix_of_f5v0; assumption|]. auto.
 Qed.
 
 (* ------------------------------------------------------------------ what parsing delivers is an instance *)
@@ -1745,7 +1841,13 @@ Section Canon.
     - (* AttributeValueBase *)
       rewrite (ext_of_eq T), xattrs_of_eq in Sown. fold slots in Sown.
       unfold init_xattrs in Hx. rewrite Kind in Hx. fold (av_B xa0) in Hx. rewrite Hx in Sown |- *.
-      destruct (av_finish (h_ext slots) (av_B xa0) x) as [xa1 tx1| |] eqn:AF; try discriminate.
+      assert (Dn : dmem qname_eqb xsi_nil a = dmem qname_eqb xsi_nil xa0).
+      { unfold dmem, xa0. rewrite (dget_filter (fun n => negb (known_attr ci n))); [reflexivity|].
+        unfold known_attr. destruct (find_attr ci xsi_nil) as [a0|] eqn:Fa; [|reflexivity].
+        destruct (find_some_key qname_eqb at_name (c_attributes ci) xsi_nil a0 qname_eqb_eq Fa) as [Ia En].
+        destruct (wf_av _ _ F Kind a0 Ia) as [_ Y]. exfalso. apply Y. exact En. }
+      rewrite Dn in Sown |- *.
+      destruct (av_finish (dmem qname_eqb xsi_nil xa0) (h_ext slots) (av_B xa0) x) as [xa1 tx1| |] eqn:AF; try discriminate.
       destruct (av_idem (h_ext slots) xa0 x xa1 tx1 Nxa0 Xxa0 Wx AF) as [I1 [I2 [I3 I4]]].
       assert (U1 : forallb (fun kv => negb (known_attr ci (fst kv))) xa1 = true).
       { apply forallb_forall. intros [k v] Hkv. cbn [fst]. apply (in_map fst) in Hkv. cbn [fst] in Hkv.
@@ -1918,7 +2020,7 @@ Section Deep.
       specialize (X (n, v) I). apply negb_true_iff in X. exact X.
     - assert (Ekids : o_kids (harvest T c (Node g a x kids)) = h_kids ci (map (classify T ci) kids)).
       { rewrite (harvest_eq T c g a x kids ci Eci), assemble_eq. destruct (c_kind ci); [reflexivity|].
-        destruct (av_finish _ _ _); reflexivity. }
+        destruct (av_finish _ _ _ _); reflexivity. }
       rewrite Ekids. unfold h_kids, LK.
       assert (G : forall specs, incl specs (c_children ci) ->
         Forall2 (fun (mk : string * list obj) s =>
